@@ -1,4 +1,5 @@
 SPECIFICATION Spec
 CONSTANTS
   Family = "cases"
+  Repaired = TRUE
 CHECK_DEADLOCK FALSE
